@@ -306,3 +306,76 @@ Proof.
   exists name, docs, l. split; [assumption|]. split; [assumption|].
   apply (variants_go_standalone r s vs l u Hc).
 Qed.
+
+(** the body of a parameter-free item, read against the generated items, is the registry's
+    field list / variant list - i.e. what [standalone_faithful] gives for the standalone
+    struct of the same field list *)
+Theorem param_free_item_body r s teq m :
+  skeleton_consistent r s -> root_fresh s -> generate r s teq = Ok m ->
+  forall t flat ir n,
+    params_from_scale_info (t_params t) = [] ->
+    create_type_ir r s t flat = Ok (Some ir) ->
+    match t_def t with
+    | TDComposite fs => item_shape m s n ir [] = SStruct (map (field_shape_reg r s n) fs)
+    | TDVariant vs =>
+        item_shape m s n ir [] =
+        SEnum (map (fun v => (v_name v, v_index v, map (field_shape_reg r s n) (v_fields v))) vs)
+    | _ => True
+    end.
+Proof.
+  intros Hsk Hfr Hgen t flat ir n Hp Hir.
+  destruct (create_type_ir_inv r s t flat ir Hir) as (HP & Hkind). rewrite Hp in *.
+  assert (Hfields : forall f fp, resolve_field_type_path r s (f_ty f) [] (f_type_name f) = Ok fp ->
+                      shape_rust m s n (subst_tpath (mk_sigma [] []) fp) = shape_reg r s n (f_ty f)).
+  { intros f fp Hfp.
+    eapply resolve_shape; [eapply generate_items_ok; eauto|assumption|exact Hfp|apply sigma_ok_nil]. }
+  unfold item_shape, item_shape_with. rewrite HP.
+  destruct Hkind as [(fs & name & docs & k & u & Hd & Hk & Hc)|(vs & name & docs & l & u & Hd & Hk & Hc)];
+    rewrite Hd, Hk; cbn [kind_shape ci_kind]; f_equal.
+  - apply (ckind_shapes r s _ (shape_reg r s n) [] fs [] k u Hc). intros f fp _. apply Hfields.
+  - apply (variants_shapes r s _ (shape_reg r s n) [] vs [] l u Hc). intros v f fp _ _. apply Hfields.
+Qed.
+
+(** ** C03: every member of a same-path family is represented by the one kept item *)
+Theorem member_represented r s teq m :
+  skeleton_consistent r s -> root_fresh s -> generate r s teq = Ok m ->
+  forall id X t,
+    resolve r id = Some X -> item_eligible s X = true -> path_ident (t_path X) <> Some "Cow" ->
+    resolve_type_path r s id = Ok t ->
+    exists params id0 X0 ir0,
+      t = TPath (rel_path (s_root s :: t_path X)) params /\
+      first_eligible r s (t_path X) = Some (id0, X0) /\
+      items_get m (t_path X) = Some (id0, ir0) /\
+      forall n, item_shape m s n ir0 params = shape_reg r s (S n) id.
+Proof.
+  intros Hsk Hfr Hgen id X t Hres He Hcow Ht0.
+  pose proof Ht0 as Ht. unfold resolve_type_path, fuel0 in Ht. rewrite resolve_rec_S in Ht.
+  unfold find_parent in Ht. cbn [find] in Ht.
+  assert (Hrt : resolve_type r id = Ok X) by (unfold resolve_type; rewrite Hres; reflexivity).
+  rewrite Hrt in Ht. cbn [bind] in Ht.
+  rewrite cow_case_if, (is_cow_false _ Hcow) in Ht. cbn [bind] in Ht.
+  apply bind_ok in Ht as (params & Hparams & Ht).
+  pose proof He as He'. unfold item_eligible in He'.
+  apply andb_prop in He' as [He' Hns]. apply andb_prop in He' as [Hcv Hsub].
+  apply negb_true_iff in Hsub.
+  assert (Ht' : type_path_maybe_with_substitutes s (t_path X) params = Ok t).
+  { destruct (t_def X); cbn in Hcv; try discriminate; exact Ht. }
+  clear Ht. unfold type_path_maybe_with_substitutes, for_path_with_params in Ht'.
+  assert (Hpt : subs_get (s_subs s) (t_path X) = None /\
+                exists a0 a1 pl, t_path X = a0 :: a1 :: pl).
+  { unfold subs_contains in Hsub. destruct (t_path X) as [|a0 [|a1 pl]]; try discriminate Hns.
+    split; [|eauto]. destruct (subs_get (s_subs s) (a0 :: a1 :: pl)); [discriminate|reflexivity]. }
+  destruct Hpt as (Hsg & a0 & a1 & pl & Hpath). rewrite Hsg in Ht'.
+  apply bind_ok in Ht' as (ptoks & Hp & Ht'). unfold from_type_def_path in Hp.
+  rewrite Hpath in Hp. destruct (forallb ident_lexb (a0 :: a1 :: pl)); [|discriminate].
+  assert (Hptoks : ptoks = rel_path (s_root s :: t_path X)) by (rewrite Hpath; congruence).
+  subst ptoks.
+  assert (Hteq : t = TPath (rel_path (s_root s :: t_path X)) params) by congruence.
+  subst t. clear Ht' Hp.
+  pose proof (resolve_In r id X (generate_sanity _ _ _ _ Hgen) Hres) as Hin.
+  destruct (generate_lookup r s teq m Hgen id X Hin He)
+    as (id0 & X0 & ir0 & flat & Hfirst & Hflat & Hir0 & Hget).
+  exists params, id0, X0, ir0. repeat split; try assumption.
+  intros n. pose proof (generate_faithful r s teq m Hsk Hfr Hgen (S n) id _ Ht0) as Hf.
+  cbn [shape_rust] in Hf. rewrite find_item_get, Hget in Hf. exact Hf.
+Qed.
